@@ -434,10 +434,19 @@ def _boolval(c):
 def _logic(op):
     def f(a, b):
         dc, kf = C.taint(a, b)
-        for c in (a, b):
-            if not z3.is_false(c.null) and decide(c.null, (c,)):
-                raise Unmodelled("logical op on a null boolean")
-        x, y = _boolval(a), _boolval(b)
+        anyn = zor(a.null, b.null)
+        src = kf_src("logical_null_operand", anyn) if op in ("and", "or") and not z3.is_false(anyn) else FALSE
+        if z3.is_false(src):
+            for c in (a, b):
+                if not z3.is_false(c.null) and decide(c.null, (c,)):
+                    raise Unmodelled("logical op on a null boolean")
+            x, y = _boolval(a), _boolval(b)
+        else:
+            # known finding logical_null_operand: numpy.logical_and/or on object arrays apply Python's and/or (None and False -> None,
+            # None or False -> False) where SQL / Polars use three-valued logic.  The value is tainted (never compared); its "is TRUE"
+            # reading -- all a row filter needs -- agrees in both logics, so kfs stays set.
+            kf = zor(kf, src)
+            x, y = zand(znot(a.null), _boolval(a)), zand(znot(b.null), _boolval(b))
         v = {"and": lambda: zand(x, y), "or": lambda: zor(x, y), "xor": lambda: z3.Xor(x, y)}[op]()
         safe = op in ("and", "or") and all(c.kfs or z3.is_false(c.kf) for c in (a, b))
         return Cell(FALSE, v, "b", dc, kf, kfs=safe)
@@ -789,11 +798,8 @@ def _agg(cells, op, *args):
     if op == "last":
         return _agg(list(reversed(cells)), "first")
     if op in ("any", "all"):
-        vals = []
-        for c in cells:
-            if not z3.is_false(c.null) and decide(c.null, (c,)):
-                raise Unmodelled("any/all over null booleans")
-            vals.append(_boolval(c))
+        # pandas groupby any()/all() skip missing values (skipna): any = some present value is True, all = every present value is True
+        vals = [zand(znot(c.null), _boolval(c)) if op == "any" else zor(c.null, _boolval(c)) for c in cells]
         return Cell(FALSE, (zor(*vals) if op == "any" else zand(*vals)) if vals else z3.BoolVal(op == "all"), "b", dc, kf)
     if op in ("median", "std", "var"):
         raise Unmodelled(f"{op} (outside the linear fragment)")
